@@ -40,9 +40,13 @@ OPS = ['set', 'set', 'get', 'set_rmode', 'set_rmode', 'get_rmode', 'set_spsr', '
 
 
 def plan(tier, seed):
+    # range-sweep: C18's systematic sweeps of the 32-bit Thumb and ARM encoding spaces (register fields biased to SP/LR/PC, operands at the
+    # edges of the 32-bit range) under the range monitor
+    sweeps = lambda rt, ra: ([{'k': 'range-sweep', 'sub': 'sweepT32', 'slice': i, 'rep': rt} for i in range(0, 384, 8)] +
+                             [{'k': 'range-sweep', 'sub': 'sweepA32', 'slice': i, 'rep': ra} for i in range(0, 8192, 64)])
     if tier == 'quick':
-        return [{'k': 'bank'}] * 5000 + [{'k': 'range-stream'}] * 6000
-    return [{'k': 'bank'}] * 200000 + [{'k': 'range-stream'}] * 250000
+        return [{'k': 'bank'}] * 5000 + [{'k': 'range-stream'}] * 6000 + sweeps(96, 6)
+    return [{'k': 'bank'}] * 200000 + [{'k': 'range-stream'}] * 250000 + sweeps(512, 64) * 4
 
 
 def gen_bank(rng):
@@ -83,6 +87,11 @@ def gen_bank(rng):
 def gen(item, rng, tier):
     if item['k'] == 'bank':
         return gen_bank(rng)
+    if item['k'] == 'range-sweep':
+        case = c18.gen_case({'k': item['sub'], 'slice': item['slice'], 'rep': item['rep']}, rng, tier)
+        case['scenario'] = 'range-stream'
+        case['cores'][0]['force']['edge_regs'] = rng.randrange(1, 8)
+        return case
     case = c18.gen_case({'k': 'stream'}, rng, tier)
     case['scenario'] = 'range-stream'
     core = case['cores'][0]
